@@ -149,7 +149,7 @@ func imgpath2dDMSizes(r *Rng, mw, mh int) [][2]int {
 	return out
 }
 
-func imgpath2dDMCase(c *Ctx, r *Rng, text []byte, hints c02Hints, nSizes int) {
+func imgpath2dDMCase(c *Ctx, r *Rng, text []byte, hints c02Hints, nSizes int, fixed ...[2]int) {
 	w := datamatrix.NewDataMatrixWriter()
 	var bare *gozxing.BitMatrix
 	o := SafeT(20e9, func() string {
@@ -168,6 +168,9 @@ func imgpath2dDMCase(c *Ctx, r *Rng, text []byte, hints c02Hints, nSizes int) {
 	bits := c06detBits(bare)
 	c.Note(fmt.Sprintf("img2d dm symbol %dx%d", mw, mh))
 	sizes := imgpath2dDMSizes(r, mw, mh)
+	if len(fixed) > 0 {
+		sizes, nSizes = fixed, len(fixed)
+	}
 	if nSizes < len(sizes) { // keep the diagonal prefix deterministic, sample the rest
 		keep := sizes[:0:0]
 		for i, s := range sizes {
@@ -225,6 +228,13 @@ func imgpath2dDMSuite(c *Ctx) {
 		"writer -> BitMatrix as image -> HybridBinarizer -> Reader.Decode(PURE_BARCODE) compared layer by layer (image, black matrix, matrix read off, text) with the composed Lean model; oracle: exactly the text as DATA_MATRIX; " +
 		"plus arbitrary bit pictures (posed symbols, specks, crops, fractional pitch, degenerate) through the same path against the model"
 	r := c.Rng.Fork()
+	// (W) witnesses (corpus/C02/imgpath2d-global-notfound.txt): 10x10 symbols whose 24 modules under the pixels the global
+	// histogram method samples are all dark — the only two among the 2^24 data-codeword triples; bare, pitch 2 and pitch 3
+	// renderings are refused by the binariser (known finding), 40 pixels and above read (theorems dm_image_small_counterexample,
+	// dm_image_witness_40)
+	for _, w := range [][]byte{{0x7a, 0x1a, 0x78}, {0x60, 0x3b, 0x35, 0x37}} {
+		imgpath2dDMCase(c, r, w, c02Hints{0, -1, -1, -1, -1}, 0, [2]int{0, 0}, [2]int{20, 20}, [2]int{30, 30}, [2]int{39, 39}, [2]int{40, 40}, [2]int{45, 45}, [2]int{10, 200})
+	}
 	// (A) every symbol size once (quick: the 16 sizes up to 64x64 and every rectangle; thorough: all 30), then random texts / hints
 	for i, s := range c02Sizes {
 		if c.Tier == "quick" && s.W > 64 {
